@@ -714,6 +714,10 @@ def observe_sites(prog, rev, k, cfg=None):
                                            cg.lower_function, cg.lower_ast, cg.emit_def_end)
 
         def w_for(inst):
+            if getattr(cg, "for_loop_depth", 0):
+                # since the repair of C12 (176abb3) the site returns at once inside a loop body:
+                # nothing is iterated or emitted there
+                return o_for(inst)
             rec["ctx"] = ["stmt", cg.current_function, inst.id]
             rec["calls"].append([rec["ctx"], None, None])      # the site ran for this statement
             try:
